@@ -69,6 +69,41 @@ func (C03) OnCall(e *sim.Env, c *sim.Call) {
 	if !IndepVerify(pk, sb, tx.Signature.Signature) {
 		viol("bad-signature/"+kind, "signature does not verify over the canonical sign bytes of the submitted (chain id, msg, fee, memo, entropy)")
 	}
+	// ground truth kept by the harness: what the signer actually signed. An accepted transaction whose message,
+	// fee, memo or entropy differ from that was not authorised by the signer, whatever any sign-byte routine says.
+	if sp := c.Meta.Spec; sp != nil && sp.SigOverride == nil && sp.SignedBy != nil {
+		e.Count("c03.accepted_with_ground_truth")
+		signedMsg, err1 := e.A.Cdc.MarshalBinaryBare(sp.Msg)
+		gotMsg, err2 := e.A.Cdc.MarshalBinaryBare(tx.Msg)
+		if err1 == nil && err2 == nil && !bytes.Equal(signedMsg, gotMsg) {
+			viol("accepted-content-not-signed/msg", "the accepted message differs from the message the signer signed")
+		}
+		if sp.Memo != tx.Memo {
+			viol("accepted-content-not-signed/memo", fmt.Sprintf("accepted memo %q, signed memo %q", tx.Memo, sp.Memo))
+		}
+		if sp.Entropy != tx.Entropy {
+			viol("accepted-content-not-signed/entropy", fmt.Sprintf("accepted entropy %d, signed entropy %d", tx.Entropy, sp.Entropy))
+		}
+		sf := sp.SignedFee()
+		same := len(sf) == len(tx.Fee)
+		for i := 0; same && i < len(sf); i++ {
+			if sf[i].Denom != tx.Fee[i].Denom || !sf[i].Amount.Equal(tx.Fee[i].Amount) {
+				same = false
+			}
+		}
+		if !same {
+			viol("accepted-content-not-signed/fee", fmt.Sprintf("accepted fee %v, signed fee %v", tx.Fee, sf))
+		}
+		if sp.ChainID != "" && sp.ChainID != sim.ChainID {
+			viol("accepted-content-not-signed/chain-id", fmt.Sprintf("signed for chain %q", sp.ChainID))
+		}
+	}
+	// every denomination of the fee must have been held by the signer
+	if sa := pre.Accounts[signer]; sa != nil && mode == "deliver" {
+		if f2 := tx.Fee.AmountOf(sim.SecondDenom).BigInt(); f2.Sign() > 0 && (sa.Bal2 == nil || sa.Bal2.Cmp(f2) < 0) {
+			viol("fee-not-funded/second-denomination", fmt.Sprintf("fee asks for %v %s, the signer held %v", f2, sim.SecondDenom, sa.Bal2))
+		}
+	}
 	cp := sim.ParamsOf(pre)
 	need := cp.RequiredFeeBig(c.Meta.MsgType)
 	if tx.Fee.AmountOf(sim.Denom).BigInt().Cmp(need) < 0 {
